@@ -16,7 +16,8 @@ ID = 'C13'
 TITLE = 'Any input type can be rendered in any output format and mode'
 LEVEL = 'exploration'
 TECHNIQUE = ('complete enumeration of the finite configuration space (input type x output format x mode x style x '
-             'condensed x identical/different) over fixed and Hypothesis-generated document sets, run through main() in-process')
+             'condensed x identical/different) over fixed and Hypothesis-generated document sets, run through main() in-process, '
+             'plus status-on invocations writing to real output streams')
 RULE = ("Configurations (enumerated completely): input type {json, json5, yaml, csv, xml, html, plist, pickle} x --format "
         "{none + the same eight} x mode {full, -e, -d} x style {default, --color, --no-color, --html, --html --color, --html --no-color} x {-j, not} x "
         "{different files, identical files}: 648 invocations per input type and document set, plus 54 invocations per set (format x mode x {default, --no-color}) with status output ON and real output streams (files with descriptors, which selects the Printer's line-buffered tqdm.write path that a terminal or pipe gets). Document sets (also with control characters, elements gaining or losing text, and non-finite / extreme numbers): 3 fixed per input type "
